@@ -71,16 +71,6 @@ def parseUnit (s : String) : Option TxUnit :=
 
 def bit (c : Char) : Option Bool := if c == '1' then some true else if c == '0' then some false else none
 
-/-- "vfa".."vfd" -/
-def registry : List Drv :=
-  [ { name := [118, 102, 97], sameTime := false, friend := false },
-    { name := [118, 102, 98], sameTime := true, friend := false },
-    { name := [118, 102, 99], sameTime := false, friend := true },
-    { name := [118, 102, 100], sameTime := true, friend := true } ]
-
-/-- `types.AllowUserExec` of the harness process: "none" + the synthetic names. -/
-def allowUser : List C12.Bytes := [110, 111, 110, 101] :: registry.map (·.name)
-
 def mainCfg : C12.Cfg := { isPara := false, title := [], forkExecKey := true }
 
 def parseEnv (flags addrs : String) : Option Env :=
@@ -89,7 +79,7 @@ def parseEnv (flags addrs : String) : Option Env :=
     let a ← bit a; let b ← bit b; let c ← bit c; let d ← bit d; let e ← bit e
     let ad ← parsePairs addrs fromHex fromHex
     pure { cfg := mainCfg, feeOn := a, forkExecRollback := b, forkResetTx0 := c, forkStateDBSet := d,
-           forkLocalDBAccess := e, allowUser := allowUser, registry := registry, addrs := ad }
+           forkLocalDBAccess := e, allowUser := synthAllowUser, registry := fullRegistry, addrs := ad }
   | _ => none
 
 def showVal : Val → String
